@@ -107,7 +107,7 @@ def run_variant(m, pids, slot=0):
     try:
         if not apply_variant(scratch, m):
             return None
-        env = dict(os.environ, S3SV_REPO=scratch, S3SV_TARGET=os.path.join(extract.CACHE, "target-w%d" % slot), S3SV_NO_EVIDENCE="1", S3SV_FACTS_SALT="w%d" % slot)
+        env = dict(os.environ, S3SV_REPO=scratch, S3SV_TARGET=os.path.join(extract.CACHE, "target-w%d" % slot), S3SV_NO_EVIDENCE="1", S3SV_FACTS_SALT="w%d-%d" % (slot, os.getpid()))
         r = subprocess.run([sys.executable, "-m", "s3sv.selftest", "--worker", json.dumps({"pids": pids, "tier": m.get("tier", "quick")}), str(slot)], cwd=VERIF, env=env,
                            stdout=subprocess.PIPE, stderr=subprocess.PIPE, text=True)
         for line in r.stdout.splitlines():
